@@ -1,6 +1,8 @@
 PROP = dict(
-    modules=["Shangrla.Model.NonnegMean"],
-    theorems=[],
+    modules=["Shangrla.Props.C11Mart"],
+    theorems=["Shangrla.C11.wellformed_alpha", "Shangrla.C11.wellformed_betting",
+              "Shangrla.C11.finish_wellformed", "Shangrla.NM.maskTerm_good", "Shangrla.NM.walk_good",
+              "Shangrla.NM.pAndHist_good"],
     groups={"nm": (1500, 30000)},
     design_ref="DESIGN.md section 5, C11",
 )
